@@ -175,7 +175,8 @@ def decWorld (j : Json) : Except String WorldJ := do
 def WorldJ.toWorld (w : WorldJ) : World where
   outShape t := (w.outs.find? (fun e => e.1 == t)).map (·.2)
   inShape t := (w.ins.find? (fun e => e.1 == t)).map (·.2)
-  asIs s d := s == d || d == .leaf w.anyLeaf || w.sub.any (fun e => e.1 == s && e.2 == d)
+  -- same type | destination Any | a union case of the destination (Optional[s]) | listed subclass pairs
+  asIs s d := s == d || d == .leaf w.anyLeaf || d == .opt s || w.sub.any (fun e => e.1 == s && e.2 == d)
 
 def decFuncParam (j : Json) : Except String FuncParam := do
   return { name := ← fieldStr j "name", kind := ← decParamKind (← fieldStr j "kind"), ty := ← decTy (← field j "ty") }
